@@ -12,8 +12,9 @@ from lib.vlib import Infra
 SPEC = os.path.join(vlib.SPECS, "conn")
 
 CFG = {
-    "quick": {"ips": ["10.0.0.1"], "ports": [6000, 6001], "mirrors": [0, 7], "lports": [0, 6000], "gids": [0, 1, 2],
-              "max_states": 4000},
+    # the same alphabet as thorough (cross-IP and same-IP interactions), explored breadth-first up to max_states states
+    "quick": {"ips": ["10.0.0.1", "10.0.0.2"], "ports": [6000, 6001], "mirrors": [0, 7], "lports": [0, 6000], "gids": [0, 1, 2],
+              "max_states": 2500, "budget": True},
     "thorough": {"ips": ["10.0.0.1", "10.0.0.2"], "ports": [6000, 6001], "mirrors": [0, 7], "lports": [0, 6000],
                  "gids": [0, 1, 2, 3], "max_states": 60000},
 }
@@ -118,7 +119,8 @@ def run(res, tier, seed, work, replay=None):
             rp = vlib.save_replay(work, "C24_edge_%d_%d.json" % (ci, idx), {"engine": "conn", "kind": kind, "path": path, "observed": edge, "tlc": line})
             if nm <= 50:
                 res.mismatch("C24", edge_signature(edge, kind), "call %s returned %s / post-state differs; spec says %s" % (json.dumps(edge["call"]), edge["res"], line[:200]), rp)
-    if summ.get("truncated"):
+    if summ.get("truncated") and not CFG[tier].get("budget"):
+        # only where max_states exceeds the model's complete state count is reaching it a verdict; in the quick tier it is a budget
         res.mismatch("C24", "conn:unbounded", "the implementation reaches more projected states (> %d) than the complete model (%d): bookkeeping grows without bound" % (summ["states"], mc["distinct"]), "")
     # 2. generate -> replay
     nbeh = nsteps = 0
